@@ -59,8 +59,7 @@ Needles  == {PathText(p, Delim) : p \in Paths} \cup SeqsUpTo(RawChars, 0, RawLen
 (* Denotes(needleText, path) is MatchStr, tabulated once over the finite  *)
 (* universe (TLC evaluates a constant-level definition once); the ASSUME  *)
 (* checks the table against the definition, entry by entry.               *)
-SuffixTexts(p) == {PathText(LastN(p, k), Delim) : k \in 1..Len(p)}
-DenotedBy      == [p \in Paths |-> SuffixTexts(p)]
+DenotedBy      == [p \in Paths |-> SuffixTexts(p, Delim)]
 Denotes(needleText, p) == needleText \in DenotedBy[p]
 ASSUME \A nd \in Needles : \A p \in Paths : Denotes(nd, p) <=> MatchStr(nd, p, Delim)
 
